@@ -14,7 +14,7 @@ open Gen Frag
 inductive Ans (α : Type) | data (p : List α) | eintr
 deriving Repr
 
-inductive Res (α : Type) | ok (data : List α) | closed | block | trunc | panic | err
+inductive Res (α : Type) | ok (data : List α) | closed | block | trunc | panic | err | corrupt
 deriving Repr, DecidableEq
 
 def embed : Frag.RRes α → Res α
@@ -25,16 +25,19 @@ def strip : List (Ans α) → List (List α)
   | .data p :: q => p :: strip q
   | .eintr :: q => strip q
 
-def loop (retry : Bool) (sys total : Nat) (buf : List α) : List (Ans α) → Bool → Res α
+def loop (retry : Bool) (sys total : Nat) (buf : List α) (answers : List (Ans α)) (eof : Bool) (restore : Bool := true) : Res α :=
+  match answers, eof with
   | [], eof => if buf.length < total then (if eof then .closed else .block) else .ok buf
   | .eintr :: q, eof =>
-    if buf.length < total then (if retry then loop retry sys total buf q eof else .err) else .ok buf
+    -- `restore`: the buffer length, raised to the end of the window before the read, is put back after an interrupted read;
+    -- without it the window counts as received: a hole of bytes nobody wrote, the rest shifted (`corrupt`)
+    if buf.length < total then (if retry then (if restore then loop retry sys total buf q eof restore else .corrupt) else .err) else .ok buf
   | .data p :: q, eof =>
     if buf.length < total then
       let want := recvEnd sys buf.length total - buf.length
       if p.length = 0 ∨ want = 0 then .closed
       else if want < p.length then .trunc
-      else loop retry sys total (buf ++ p) q eof
+      else loop retry sys total (buf ++ p) q eof restore
     else .ok buf
 
 /-- **interruptions are invisible**: with the retry, for any number of `EINTR` answers at any positions, the loop ends exactly as the
@@ -69,12 +72,17 @@ theorem loop_retry_ok (sys total : Nat) (buf : List α) (answers : List (Ans α)
     (h : Frag.recvFollow sys total buf (strip answers) eof = .ok d) : loop true sys total buf answers eof = .ok d := by
   rw [loop_retry, h]; rfl
 
+/-- a retry that forgets to put the buffer length back (seeded changes C02-5, C12-5, C18-4) delivers a damaged message -/
+theorem loop_norestore_corrupt (sys total : Nat) (buf : List α) (q : List (Ans α)) (eof : Bool) (h : buf.length < total) :
+    loop true sys total buf (.eintr :: q) eof false = .corrupt := by
+  simp [loop, h]
+
 /-- without the retry (the code before the repair): one interruption while bytes are still owed is an error, the message is lost -/
 theorem loop_noretry_err (sys total : Nat) (buf : List α) (q : List (Ans α)) (eof : Bool) (h : buf.length < total) :
     loop false sys total buf (.eintr :: q) eof = .err := by
   simp [loop, h]
 
 /-- what the source does now -/
-theorem code_retries : Gen.shape_followupRetriesEintr = true := by decide
+theorem code_retries : Gen.shape_followupRetriesEintr = true ∧ Gen.shape_followupRestoresLen = true := by decide
 
 end RecvSig
